@@ -14,7 +14,7 @@ def run(ctx):
     with quiet_stderr():
         for i in range(ctx.pick(14, 150)):
             cc, ops = fs_drv.make_job(rng, ctx.seed * 1117 + i, nfiles=(2, 5))
-            scen.append(fs_drv.stepped(env, drf, cc, ops, "step%d" % i, rng))
+            scen.append(fs_drv.stepped(fc.env_for(env, i), drf, cc, ops, "step%d" % i, rng))
     fc.account(ctx, scen, "a pool of long-lived DigitalRFReader objects created at different operations of the recording (before the "
                "channel exists, while the properties file is written, mid-file, after close) each run a pass (bounds, read of everything) "
                "between every two file-system operations of the writer; TLC requires every pass to succeed, to equal exactly the content "
